@@ -553,6 +553,10 @@ func (e *Evaluator) evalDotExp(node *ast.DotExp, env *object.Env) object.Object 
 		return left
 	}
 
+	if !left.Is(object.OBJ_OBJ) {
+		return e.newError(node, fail.ErrDotOperatorNotSupported, left.Type())
+	}
+
 	key := node.Key.(*ast.Identifier)
 
 	return e.evalObjectIndexExp(left.(*object.Obj), key.Value, node)
